@@ -14,10 +14,15 @@ class LoopSpec:
         self.decreases = None    # text (int expr) or tuple of texts (lexicographic)
         self.havoc = []          # [(lvalue text, desc or None)]
         self.unroll = None       # int: bounded mode for this loop
+        self.steps = []          # [(label, text)]: obligations on ONE iteration; prev(e) = value of e at the start of the iteration
 
     def invariant(self, *texts):
         for t in texts:
             self.invariants.append((f"inv{len(self.invariants)}", t))
+        return self
+
+    def step(self, label, text):
+        self.steps.append((label, text))
         return self
 
     def measure(self, *texts):
